@@ -171,7 +171,7 @@ func runArith(sc arithScenario, enc *json.Encoder) error {
 		rec := J{"a": "Arith", "id": sc.ID, "step": k + 1, "op": st.Op, "amt": bigOf(st.Amt).String(), "rate": bigOf(st.Rate).String(),
 			"now": now.String(), "feeNum": feeNum, "feeDen": feeDen, "funds": funds.String(),
 			"pre": pre, "post": post,
-			"res": J{"ok": rr.Code == 0, "code": rr.Code, "cs": rr.Codespace, "panic": rr.Code == sdkerrors.ErrPanic.ABCICode() && rr.Codespace == sdkerrors.ErrPanic.Codespace(), "log": trunc(rr.Log)},
+			"res":  J{"ok": rr.Code == 0, "code": rr.Code, "cs": rr.Codespace, "panic": rr.Code == sdkerrors.ErrPanic.ABCICode() && rr.Codespace == sdkerrors.ErrPanic.Codespace(), "log": trunc(rr.Log)},
 			"gain": J{"A1": delta("A1"), "A2": delta("A2"), "feecol": delta("feecol"), "stream": delta("stream")}}
 		if err := enc.Encode(rec); err != nil {
 			return err
